@@ -200,3 +200,76 @@ def build_gen(ctx, targets=('Gen/ParamTable.vo',)):
     if rc != 0:
         ctx.violate('proof', 'gen-build:' + ','.join(targets), 'regenerated table no longer compiles: ' + log[-600:])
         raise RuntimeError('Gen build failed')
+
+
+# ---------------------------------------------------------------------------------------------------------
+# option parameters (intParameter with a ValuesEnum): Gen/OptionTable.v
+# ---------------------------------------------------------------------------------------------------------
+STRICT_CALLS = ('from_input_string', 'get_reservoir_model_from_input_string')
+
+
+def _conversions(cls):
+    """{parameter name: ('strict',) | ('else', MEMBER_NAME)}: what the special case of a read_parameters of the class (or a
+    base) does with the TEXT of the value inside `if <x>.Name == "<name>":` - <Enum>.from_input_string(...sValue), or an
+    if / elif chain on `...sValue == '<k>'` whose final else assigns one fixed member.  Found by an ast walk."""
+    import ast
+    out = {}
+    for k in reversed(cls.__mro__):
+        fn = vars(k).get('read_parameters')
+        if fn is None or not hasattr(fn, '__code__'):
+            continue
+        mod = ast.parse(open(inspect.getsourcefile(fn)).read())
+        fdef = next((f for c in ast.walk(mod) if isinstance(c, ast.ClassDef) and c.name == k.__name__
+                     for f in c.body if isinstance(f, ast.FunctionDef) and f.name == 'read_parameters'), None)
+        if fdef is None:
+            raise ValueError(f'cannot find {k.__name__}.read_parameters in its source')
+        for node in ast.walk(fdef):
+            if not isinstance(node, ast.If):
+                continue
+            names = [c.comparators[0].value for c in ast.walk(node.test) if isinstance(c, ast.Compare) and isinstance(c.left, ast.Attribute)
+                     and c.left.attr == 'Name' and len(c.comparators) == 1 and isinstance(c.ops[0], ast.Eq)
+                     and isinstance(c.comparators[0], ast.Constant) and isinstance(c.comparators[0].value, str)]
+            if not names:
+                continue
+            calls = [c for st in node.body for c in ast.walk(st) if isinstance(c, ast.Call) and isinstance(c.func, ast.Attribute)
+                     and c.func.attr in STRICT_CALLS and any(isinstance(a, ast.Attribute) and a.attr == 'sValue' for a in c.args)]
+            conv = ('strict',) if calls else None
+            chain = next((st for st in node.body if isinstance(st, ast.If) and isinstance(st.test, ast.Compare)
+                          and isinstance(st.test.left, ast.Attribute) and st.test.left.attr == 'sValue'), None)
+            if conv is None and chain is not None:
+                while len(chain.orelse) == 1 and isinstance(chain.orelse[0], ast.If):
+                    chain = chain.orelse[0]
+                tail = [a.value for st in chain.orelse for a in ast.walk(st) if isinstance(a, ast.Assign) and isinstance(a.value, ast.Attribute)
+                        and isinstance(a.value.value, ast.Name)]
+                if tail:
+                    conv = ('else', tail[0].attr)
+            if conv:
+                out.update({n: conv for n in names})
+    return out
+
+
+def option_rows():
+    if 'opts' not in _CACHE:
+        idx, out = index(), []
+        classes = {c.__name__: c for _, c in module_classes()}
+        for cls_name, o in sources():
+            conv = _conversions(classes[cls_name])
+            for name, p in o.ParameterDict.items():
+                if type(p).__name__ == 'intParameter' and p.ValuesEnum is not None:
+                    c = conv.get(name, ())
+                    out.append({'i': idx[(cls_name, name)], 'cls': cls_name, 'name': name, 'strict': c[:1] == ('strict',),
+                                'else_to': int(getattr(p.ValuesEnum, c[1]).int_value) if c[:1] == ('else',) else None,
+                                'members': [int(m.int_value) for m in p.ValuesEnum], 'enum': p.ValuesEnum.__name__})
+        _CACHE['opts'] = out
+    return _CACHE['opts']
+
+
+def gen_optiontable(ctx):
+    rs = option_rows()
+    items = [f'({r["i"]}%nat, {qconv.blit(r["strict"])}, ' + ('None' if r['else_to'] is None else f'Some {qconv.zlit(r["else_to"])}')
+             + ', [' + '; '.join(qconv.zlit(n) for n in r['members']) + '])' for r in rs]
+    text = ('(* GENERATED by tools/gen/paramtable.py: option parameters (row of param_table, text conversion strict?, enum members) *)\n'
+            'From Coq Require Import ZArith List.\nFrom Verif Require Import Model.TokenReader.\nImport ListNotations.\n\n'
+            'Definition option_table : list orow := [\n ' + ';\n '.join(items) + '\n].\n')
+    fw.write_if_changed(fw.COQ / 'Gen' / 'OptionTable.v', text)
+    return len(rs)
